@@ -5,12 +5,12 @@
 From Coq Require Import ZArith Lia List.
 From LP Require Import Scalar UPoly MPoly Sylvester RefAlg.
 Set Warnings "-notation-overridden,-ambiguous-paths".
-From mathcomp Require Import all_ssreflect all_fingroup all_algebra.
+From mathcomp Require Import all_ssreflect all_fingroup all_algebra all_real_closed.
 From mathcomp Require Import ssrZ zify.
 From CoqEAL Require Import minor.
 Set Warnings "notation-overridden,ambiguous-paths".
-From LP Require Import UPolySpec SylvesterProofs RefAlgDet.
-Import GRing.Theory.
+From LP Require Import UPolySpec SylvesterProofs RefAlgDet RefAlgSpec RefAlgLoops RefAlgOps.
+Import GRing.Theory Num.Theory.
 Set Implicit Arguments.
 Unset Strict Implicit.
 Unset Printing Implicit Defensive.
@@ -128,3 +128,226 @@ rewrite -(resultant_refP_mathcomp Hla' Hlb') /resultant_ref /sylv_det.
 congr (Poly (mdet _ _ _ _ _ _ _ _ _)).
 by change (length a) with (size a); change (length b) with (size b); lia.
 Qed.
+
+(* ---------------------------------------------------------------- resultants against a polynomial constant in z *)
+Local Notation "p ^:P" := (map_poly polyC p) (at level 2, format "p ^:P") : ring_scope.
+Local Notation "'Y" := 'X%:P : ring_scope.
+
+Section ResultantConst.
+Variable D : idomainType.
+
+(* P(t) against B(t, z) whose leading coefficient as a polynomial in z is a non-zero constant: the resultant in t is a
+   non-zero polynomial in z (same argument as MathComp's sub_annihilant_neq0) *)
+Lemma resultant_constP_neq0 (P : {poly D}) (B : {poly {poly D}}) (c : D) :
+  P != 0 -> c != 0 -> lead_coef (swapXY B) = c%:P -> resultant P^:P B != 0.
+Proof.
+move=> nzP nzc HB.
+have nzB : B != 0 by rewrite -swapXY_eq0 -lead_coef_eq0 HB polyC_eq0.
+have nzP1 : P^:P != 0 by rewrite map_polyC_eq0.
+rewrite resultant_eq0 -leqNgt eq_leq //; apply/eqP/Bezout_coprimepPn => // [[[u v]]] /=.
+rewrite !size_poly_gt0 -andbA => /and4P[nz_u ltu nz_v ltv] Duv.
+have /eqP/= := congr1 (size \o (lead_coef \o swapXY)) Duv.
+rewrite !rmorphM !lead_coefM /= swapXY_map_polyC lead_coefC HB.
+rewrite gtn_eqF // [_ * c%:P]mulrC size_Cmul //.
+apply: leq_ltn_trans (max_size_lead_coefXY _) _.
+rewrite sizeYE swapXYK; apply: leq_trans ltv _.
+rewrite size_map_polyC.
+have nzl : lead_coef (swapXY u) != 0 by rewrite lead_coef_eq0 swapXY_eq0.
+by rewrite size_mul // (polySpred nzl) addSn /= leq_addl.
+Qed.
+
+End ResultantConst.
+
+Section ResultantRoot.
+Variables (R : comRingType) (f : {rmorphism Z -> R}).
+Local Notation ev s := (horner_eval s \o map_poly f).
+
+Lemma ev_polyC (s : R) (c : Z) : ev s c%:P = f c.
+Proof. by rewrite /= map_polyC /horner_eval hornerC. Qed.
+
+Lemma map_ev_polyC (s : R) (P : {poly Z}) : map_poly (ev s) P^:P = map_poly f P.
+Proof. by rewrite -map_poly_comp; apply: eq_map_poly => c; rewrite [LHS]ev_polyC. Qed.
+
+(* a common root of P and of B(., s) is a root in s of the resultant *)
+Lemma resultant_root (P : {poly Z}) (B : {poly {poly Z}}) (a s : R) :
+  (1 < size P)%N -> (1 < size B)%N -> (map_poly f P).[a] = 0 -> (map_poly (ev s) B).[a] = 0 ->
+  (map_poly f (resultant P^:P B)).[s] = 0.
+Proof.
+move=> sP sB Pa Ba.
+have sP1 : (1 < size P^:P)%N by rewrite size_map_polyC.
+have [uv _ Dr] := resultant_in_ideal sP1 sB.
+have := congr1 (fun w => (map_poly (ev s) w).[a]) Dr.
+rewrite map_polyC hornerC rmorphD !rmorphM hornerD !hornerM /= map_ev_polyC Pa Ba !mulr0 addr0.
+by [].
+Qed.
+
+End ResultantRoot.
+
+(* ---------------------------------------------------------------- denotation of the bivariate list operations *)
+Lemma BP_nil : BP [::] = 0. Proof. by []. Qed.
+Lemma BP_cons x l : BP (x :: l) = (Poly x)%:P + BP l * 'X.
+Proof. by rewrite /BP /= cons_poly_def addrC. Qed.
+
+Lemma BP_rcons l x : BP (rcons l x) = BP l + (Poly x)%:P * 'X^(size l).
+Proof.
+elim: l => [|y l IH] /=; first by rewrite !BP_cons BP_nil mul0r addr0 add0r expr0 mulr1.
+by rewrite !BP_cons IH mulrDl addrA exprSr mulrA.
+Qed.
+
+Lemma bp_add_cons x a y b : bp_add (x :: a) (y :: b) = padd x y :: bp_add a b.
+Proof. by []. Qed.
+
+Lemma BP_bp_add a b : BP (bp_add a b) = BP a + BP b.
+Proof.
+elim: a b => [|x a IH] [|y b]; rewrite ?BP_nil ?add0r ?addr0 //.
+by rewrite bp_add_cons !BP_cons IH Poly_padd polyCD mulrDl addrACA.
+Qed.
+
+Lemma BP_bp_scale c a : BP (bp_scale c a) = (Poly c)%:P * BP a.
+Proof.
+elim: a => [|x a IH]; first by rewrite /= BP_nil mulr0.
+by rewrite /= !BP_cons IH Poly_pmul polyCM mulrDr mulrA.
+Qed.
+
+Lemma BP_bp_mul a b : BP (bp_mul a b) = BP a * BP b.
+Proof.
+elim: a => [|x a IH]; first by rewrite /= BP_nil mul0r.
+rewrite /= BP_bp_add BP_bp_scale !BP_cons IH /= polyC0 add0r.
+by rewrite mulrDl mulrAC.
+Qed.
+
+Lemma Poly_constz (c : Z) : Poly (if Z.eqb c Z0 then [::] else [:: c]) = c%:P.
+Proof. by rewrite ZeqbP; case: eqP => [->|_] /=; rewrite ?polyC0 // cons_poly_def mul0r add0r. Qed.
+
+Lemma bp_comp_cons c p s :
+  bp_comp (c :: p) s = bp_add [:: if Z.eqb c Z0 then [::] else [:: c]] (bp_mul s (bp_comp p s)).
+Proof. by []. Qed.
+
+Lemma BP_bp_comp p s : BP (bp_comp p s) = (Poly p)^:P \Po BP s.
+Proof.
+elim: p => [|c p IH]; first by rewrite /= BP_nil rmorph0 comp_poly0.
+rewrite bp_comp_cons BP_bp_add BP_bp_mul IH BP_cons BP_nil mul0r addr0 Poly_constz.
+rewrite Poly_cons0 rmorphD rmorphM /= map_polyX map_polyC /= comp_polyD comp_polyM comp_polyX comp_polyC.
+by rewrite mulrC.
+Qed.
+
+Lemma BP_bp_of_upoly p : BP (bp_of_upoly p) = (Poly p)^:P.
+Proof.
+rewrite /bp_of_upoly -(Poly_pnorm p); elim: (pnorm p) => [|c l IH]; first by rewrite BP_nil /= rmorph0.
+by rewrite /= BP_cons IH Poly_constz cons_poly_def rmorphD rmorphM /= map_polyX map_polyC addrC.
+Qed.
+
+Lemma last_bp_of_upoly p : Poly p != 0 -> Poly (last [::] (bp_of_upoly p)) != 0.
+Proof.
+move=> p0; rewrite /bp_of_upoly.
+have := last_pnorm_neq0 p.
+have : pnorm p != [::] by apply/eqP => /pnorm_nilP/eqP; rewrite (negbTE p0).
+case: (pnorm p) => [|c l] // _ /=.
+by rewrite !last_map Poly_constz polyC_eq0.
+Qed.
+
+Fixpoint bdrop (l : seq (seq Z)) : seq (seq Z) :=
+  match l with [::] => [::] | x :: l' => if pis_zero x then bdrop l' else l end.
+
+Lemma bp_trimE a : bp_trim a = rev (bdrop (rev a)).
+Proof. by rewrite /bp_trim !List_rev_rev. Qed.
+
+Lemma BP_bp_trim a : BP (bp_trim a) = BP a.
+Proof.
+rewrite bp_trimE -{2}(revK a); elim: (rev a) => [|x r IH] //=.
+case E: (pis_zero x) => //.
+by rewrite IH rev_cons BP_rcons (pis_zeroP _ E) polyC0 mul0r addr0.
+Qed.
+
+Lemma last_bp_trim a : BP a != 0 -> Poly (last [::] (bp_trim a)) != 0.
+Proof.
+rewrite -BP_bp_trim bp_trimE; elim: (rev a) => [|x r IH] /=; first by rewrite BP_nil eqxx.
+case E: (pis_zero x) => // _.
+by rewrite rev_cons last_rcons; apply/negP => /eqP/pis_zeroP; rewrite E.
+Qed.
+
+(* ---------------------------------------------------------------- annihilator of a sum *)
+Lemma Poly_X : Poly [:: Z0; Zpos xH] = 'X :> {poly Z}.
+Proof. by rewrite !Poly_cons0 /= polyC0 add0r mul0r addr0 mul1r. Qed.
+Lemma Poly_N1 : Poly [:: Zneg xH] = -1 :> {poly Z}.
+Proof. by rewrite Poly_cons0 /= mul0r addr0 -polyCN. Qed.
+
+Lemma BP_YmX : BP [:: [:: Z0; Zpos xH]; [:: Zneg xH]] = 'Y - 'X.
+Proof. by rewrite !BP_cons BP_nil mul0r addr0 Poly_X Poly_N1 polyCN mulNr mul1r. Qed.
+
+(* q(z - t) as a polynomial in t over Z[z] *)
+Definition Badd (Q : {poly Z}) : {poly {poly Z}} := Q^:P \Po ('Y - 'X).
+
+Lemma size_YmX : size ('Y - 'X : {poly {poly Z}}) = 2%N.
+Proof. by rewrite -opprB size_opp size_XsubC. Qed.
+
+Lemma size_Badd Q : size (Badd Q) = size Q.
+Proof. by rewrite /Badd size_comp_poly2 ?size_YmX // size_map_polyC. Qed.
+
+Lemma lead_swap_Badd Q : lead_coef (swapXY (Badd Q)) = (lead_coef Q)%:P.
+Proof.
+rewrite /Badd swapXY_comp_poly rmorphB /= swapXY_X swapXY_Y.
+rewrite lead_coef_comp ?size_XsubC // lead_coefXsubC expr1n mulr1.
+by rewrite lead_coef_map_inj //; apply: polyC_inj.
+Qed.
+
+Lemma ann_add_res (p q : seq Z) : Poly p != 0 -> Poly q != 0 ->
+  exists k : nat, Poly (ann_add p q) = (-1) ^+ k * resultant (Poly p)^:P (Badd (Poly q)).
+Proof.
+move=> p0 q0; rewrite /ann_add.
+have EB : BP (bp_trim (bp_comp (pnorm q) [:: [:: Z0; Zpos xH]; [:: Zneg xH]])) = Badd (Poly q).
+  by rewrite BP_bp_trim BP_bp_comp BP_YmX Poly_pnorm.
+have nzB : BP (bp_comp (pnorm q) [:: [:: Z0; Zpos xH]; [:: Zneg xH]]) != 0.
+  by rewrite -BP_bp_trim EB -size_poly_eq0 size_Badd size_poly_eq0.
+rewrite (bires_resultant (last_bp_of_upoly p0) (last_bp_trim nzB)) EB BP_bp_of_upoly.
+by eexists.
+Qed.
+
+Theorem ann_add_neq0 (p q : seq Z) : Poly p != 0 -> Poly q != 0 -> Poly (ann_add p q) != 0.
+Proof.
+move=> p0 q0; have [k ->] := ann_add_res p0 q0.
+rewrite mulf_neq0 ?signr_eq0 //.
+apply: (@resultant_constP_neq0 _ _ _ (lead_coef (Poly q))) => //; first by rewrite lead_coef_eq0.
+exact: lead_swap_Badd.
+Qed.
+
+(* ---- roots, in any real closed field *)
+Section AnnRoots.
+Variable R : rcfType.
+Local Notation zr := (@zr R).
+Local Notation pr := (@pr R).
+Local Notation zrm := (zr_rmorphism R).
+Local Notation ev s := (horner_eval s \o map_poly zrm).
+
+Lemma size_pr (p : seq Z) : size (pr p) = size (Poly p).
+Proof. by rewrite /RefAlgSpec.pr size_map_inj_poly ?zr0 //; exact: zr_inj. Qed.
+
+Lemma root_size_Poly (p : seq Z) (a : R) : Poly p != 0 -> root (pr p) a -> (1 < size (Poly p))%N.
+Proof. by move=> p0 ra; rewrite -size_pr; apply: root_size_gt1 ra; rewrite pr_eq0. Qed.
+
+Lemma pr_sign_res (x : seq Z) (k : nat) (r : {poly Z}) (s : R) :
+  Poly x = (-1) ^+ k * r -> (map_poly zrm r).[s] = 0 -> root (pr x) s.
+Proof.
+move=> Ex Hr; rewrite rootE /RefAlgSpec.pr Ex.
+have -> : map_poly zr ((-1) ^+ k * r) = (-1) ^+ k * map_poly zrm r.
+  by rewrite (rmorphM (map_poly_rmorphism zrm)) (rmorphX (map_poly_rmorphism zrm)) (rmorphN1 (map_poly_rmorphism zrm)).
+by rewrite hornerM Hr mulr0.
+Qed.
+
+Lemma ev_X (s : R) : ev s 'X = s.
+Proof. by rewrite /= map_polyX /horner_eval hornerX. Qed.
+
+(* G3: a + b is a root of ann_add p q *)
+Theorem ann_add_root (p q : seq Z) (a b : R) : Poly p != 0 -> Poly q != 0 ->
+  root (pr p) a -> root (pr q) b -> root (pr (ann_add p q)) (a + b).
+Proof.
+move=> p0 q0 ra rb; have [k Ek] := ann_add_res p0 q0.
+apply: pr_sign_res Ek _; apply: (@resultant_root _ zrm _ _ a).
+- exact: root_size_Poly ra.
+- by rewrite size_Badd; exact: root_size_Poly rb.
+- exact/eqP.
+rewrite /Badd poly.map_comp_poly map_ev_polyC rmorphB /= map_polyC map_polyX [X in X%:P]ev_X.
+by rewrite horner_comp hornerD hornerN hornerC hornerX addrAC subrr add0r; exact/eqP.
+Qed.
+
+End AnnRoots.
